@@ -205,6 +205,8 @@ Definition dec_hop (s : sexp) : option hop :=
   | SList [SStr "parsed"; i] => do i' <- as_nat i; Some (HReadParsed i')
   | SList [SStr "setopts"; i; o] => do i' <- as_nat i; do o' <- dec_odict o; Some (HSetOptions i' o')
   | SList [SStr "mutate"; r; SStr k; v] => do r' <- as_nat r; do v' <- as_bool v; Some (HMutate r' (okey_of k) v')
+  | SList [SStr "setvalue"; i; ls] => do i' <- as_nat i; do ls' <- dec_strs ls; Some (HSetValue i' ls')
+  | SList [SStr "lines"; i] => do i' <- as_nat i; Some (HReadLines i')
   | _ => None
   end.
 Definition enc_hres (r : hres) : sexp :=
@@ -215,7 +217,12 @@ Definition enc_hres (r : hres) : sexp :=
   | HS l => SList [SStr "ok"; SList (map enc_gsec l)]
   end.
 Definition enc_hobs (o : hobs) : sexp :=
-  match o with ObsRes r => SList [SStr "res"; enc_hres r] | ObsNone => SList [SStr "none"] | ObsBadIndex => SList [SStr "bad"] end.
+  match o with
+  | ObsRes r => SList [SStr "res"; enc_hres r]
+  | ObsLines l => SList [SStr "lines"; SList (map enc_str l)]
+  | ObsNone => SList [SStr "none"]
+  | ObsBadIndex => SList [SStr "bad"]
+  end.
 
 Definition enc_pair (p : str * str) : sexp := SList [enc_str (fst p); enc_str (snd p)].
 
